@@ -195,6 +195,9 @@ def isB : Arg → Bool
 def bIndex : Arg → Option Nat
   | .b i => some i
   | _ => none
+def qIndex : Arg → Option Nat
+  | .q i => some i
+  | _ => none
 
 /-- one instruction: `name operand, operand, …` -/
 def parseInstr (s : Text) : Except SynErr Instr :=
@@ -322,9 +325,9 @@ inductive WfErr where
 
 def Instr.qubits (n : Nat) (i : Instr) : List Nat :=
   if i.name = "measure_all" then List.range n else
-  i.args.filterMap fun | .q k => some k | _ => none
+  i.args.filterMap qIndex
 def Instr.bits (i : Instr) : List Nat :=
-  i.ctrl ++ i.args.filterMap fun | .b k => some k | _ => none
+  i.ctrl ++ i.args.filterMap bIndex
 
 def hasDup : List Nat → Bool
   | [] => false
